@@ -9,7 +9,7 @@ import (
 	"errors"
 	"fmt"
 	"io"
-	"math"
+	"math/bits"
 
 	"github.com/wrgl/wrgl/pkg/encoding"
 	"github.com/wrgl/wrgl/pkg/misc"
@@ -30,20 +30,18 @@ var typeStrs = map[int]string{
 }
 
 func encodeObjTypeAndLen(buf encoding.Bufferer, objType int, u uint64) []byte {
-	bits := int(math.Floor(math.Log2(float64(u)) + 1))
-	numBytes := (bits-4)/7 + 1
-	if (bits-4)%7 > 0 {
-		numBytes += 1
-	}
-	if numBytes == 1 {
-		numBytes = 2
+	// number of significant bits of u (0 when u is 0)
+	nbits := bits.Len64(u)
+	numBytes := 2
+	if nbits > 4 {
+		numBytes = (nbits-4+6)/7 + 1
 	}
 	b := buf.Buffer(numBytes)
 	b[0] = 128 | uint8(objType)<<4 | (uint8(u) & 15)
-	bits = 4
+	shift := 4
 	for i := 1; i < numBytes; i++ {
-		b[i] = 128 | uint8(u>>bits)
-		bits += 7
+		b[i] = 128 | uint8(u>>shift)
+		shift += 7
 	}
 	b[numBytes-1] &= 127
 	return b
